@@ -80,7 +80,7 @@ fn plans(prop: &str, tier: &str) -> Vec<Plan> {
     let xcap = if quick { 30_000 } else { 300_000 };
     let mk = |label: &str, cfg: &Cfg, d: usize, m: usize, b: usize| -> Plan {
         // the largest default-answer box of a configuration also runs the operand-consuming opcodes one slot deeper
-        let o = Opts { max_depth: d, max_memo: m, dev_budget: b, ref_in_key: safe_only, xval_cap: xcap, fringe_consumers: b == 0 && m == 1, ..Opts::default() };
+        let o = Opts { max_depth: d, max_memo: m, dev_budget: b, ref_in_key: safe_only, xval_cap: xcap, fringe_consumers: b == 0 && m == 1 && d >= 3, ..Opts::default() };
         Plan { label: format!("{label}/D{d}M{m}b{b}"), cfg: cfg.clone(), opts: o, scenario: vec![] }
     };
     if prop != "C10" {
@@ -94,7 +94,18 @@ fn plans(prop: &str, tier: &str) -> Vec<Plan> {
                 // (C04/C05/C06, which depend on the opcode, the protocol and the drawn values, not on the stack below).
                 let p0 = p == 0;
                 let boxes: Vec<(usize, usize, usize)> = match (prop, quick, has_m) {
-                    ("C01" | "C03" | "C17", true, false) => vec![(if p0 { 4 } else { 3 }, 1, 0), (2, 2, 0), (2, 1, 1)],
+                    // can_emit() and the simulation do not look at the protocol, only the opcode table differs: the richest
+                    // table of each family (5 ⊇ 4, 3 ⊇ 2, 1 ⊇ 0 for everything but the text encodings) gets the deep box,
+                    // its poorer sibling a shallow one; protocol-specific code (integer tables, collapse phase below
+                    // protocol 2, header) is shallow by nature
+                    ("C01" | "C03" | "C17", true, false) => match p {
+                        5 => vec![(3, 1, 0), (2, 2, 0), (2, 1, 1)],
+                        4 => vec![(2, 2, 0), (2, 1, 1)],
+                        3 => vec![(3, 1, 0), (2, 1, 1)],
+                        2 => vec![(2, 2, 0), (2, 1, 1)],
+                        1 => vec![(3, 1, 0), (2, 2, 0), (2, 1, 1)],
+                        _ => vec![(4, 1, 0), (2, 2, 0), (2, 1, 1)],
+                    },
                     ("C01" | "C03" | "C17", true, true) => {
                         let mut b = vec![(2, 2, 0), (1, 2, 1)];
                         if p0 {
@@ -476,30 +487,37 @@ pub fn check_c15(tier: &str) -> i32 {
         for (name, list, uns) in &lists {
             for rate in [0.0f64, 1.0] {
                 let cfg = Cfg::new(p).flags(true, true).muts(list, rate, *uns);
-                let opts = Opts {
+                // plan A: every gate answer of the f64 alphabet, default value answers; plan B: gates {fires, declines},
+                // one value deviation per step (e.g. the boundary table index that yields NaN)
+                let mut plans: Vec<Opts> = vec![Opts {
                     max_depth: if quick { 1 } else { 2 },
                     max_memo: if quick { 2 } else { 3 },
-                    dev_budget: if quick { 0 } else { 1 },
+                    dev_budget: 0,
                     ref_in_key: false,
                     gate_alphabet: if list.len() == 1 { crate::script::F64_ALPHABET[1..].to_vec() } else { vec![2.0, -1.0, f64::NAN] },
                     frame: FrameSel::Off,
                     ..Opts::default()
-                };
-                let label = format!("P{p}/{name}@{rate}/D{}M{}b{}", opts.max_depth, opts.max_memo, opts.dev_budget);
-                let t0 = std::time::Instant::now();
-                let ex = Explorer { base_cfg: cfg, opts, monitor: &guard, xval_full: Default::default(), choice_discovery: Default::default() };
-                let out = ex.explore(None);
-                if verbose {
-                    eprintln!("plan {label:<44} states={:>7} transitions={:>9} found={} {:.2}s", out.stats.states, out.stats.transitions, out.found.len(), t0.elapsed().as_secs_f64());
+                }];
+                if list.len() == 1 || !quick {
+                    plans.push(Opts { max_depth: 1, max_memo: if quick { 1 } else { 2 }, dev_budget: 1, ref_in_key: false, frame: FrameSel::Off, ..Opts::default() });
                 }
-                rep.add_stats(&label, &out.stats);
-                for fd in &out.found {
-                    rep.finding(fd);
-                }
-                if let Some((s, k)) = out.sample_scripts.last() {
-                    if rep.samples.len() < 4 {
-                        let (c, r, _t) = ex.run(s, *k);
-                        rep.sample(json!({"config": c.describe(), "script_hex": lexer::hex(s), "output_hex": r.bytes().map(lexer::hex)}));
+                for opts in plans {
+                    let label = format!("P{p}/{name}@{rate}/D{}M{}b{}", opts.max_depth, opts.max_memo, opts.dev_budget);
+                    let t0 = std::time::Instant::now();
+                    let ex = Explorer { base_cfg: cfg.clone(), opts, monitor: &guard, xval_full: Default::default(), choice_discovery: Default::default() };
+                    let out = ex.explore(None);
+                    if verbose {
+                        eprintln!("plan {label:<44} states={:>7} transitions={:>9} found={} {:.2}s", out.stats.states, out.stats.transitions, out.found.len(), t0.elapsed().as_secs_f64());
+                    }
+                    rep.add_stats(&label, &out.stats);
+                    for fd in &out.found {
+                        rep.finding(fd);
+                    }
+                    if let Some((s, k)) = out.sample_scripts.last() {
+                        if rep.samples.len() < 4 {
+                            let (c, r, _t) = ex.run(s, *k);
+                            rep.sample(json!({"config": c.describe(), "script_hex": lexer::hex(s), "output_hex": r.bytes().map(lexer::hex)}));
+                        }
                     }
                 }
             }
